@@ -976,6 +976,8 @@ class GetGateFromHam(TEBDContract):
         return dict(self=ref, dt_frac=cx.Real("dt_frac"), sites=(cx.Int("a"), cx.Int("b")))
 
     def call(self, cx, name, args, kwargs, node):
+        if name == "__binop__" and (args[1] is None or args[2] is None):
+            raise PyRaise("TypeError", getattr(node, "lineno", 0))  # arithmetic on None
         if name == "__binop__" and args[0] == "Sub" and isinstance(args[2], complex) and not is_z3(args[1]) and args[1] == 0:
             return -args[2]  # unary minus on a complex constant
         if name == "__binop__" and args[0] == "Mult":
@@ -1489,3 +1491,356 @@ class AtTimes(TEBDContract):
         g = NS(cx.ghost)
         f = cx.fields(a.self)
         return {"yields==len(ts)": Z(f["g_nyield"]) == g.n, "ends-at-the-largest-requested-time": f["t"] == z3.Select(g.srt, g.n - 1)}
+
+
+# ======================================================================================================
+# LocalHam1D.__init__  (symbolic L, quantified map invariant)
+# ======================================================================================================
+
+X_, Y_ = z3.Int("x!site"), z3.Int("y!site")
+
+
+class Op:
+    """an opaque operator (array-like: has .shape)"""
+
+    def __init__(self, z):
+        self.z = z
+
+
+class SymMap:
+    """finite map (int, int) -> operator of arbitrary content: dom : Int -> Int -> Bool, val : Int -> Int -> V"""
+
+    def __init__(self, dom, val):
+        self.dom, self.val = dom, val
+
+    def has(self, x, y):
+        return z3.Select(z3.Select(self.dom, Z(x)), Z(y))
+
+    def get(self, x, y):
+        return z3.Select(z3.Select(self.val, Z(x)), Z(y))
+
+    def put(self, x, y, v):
+        self.dom = z3.Store(self.dom, Z(x), z3.Store(z3.Select(self.dom, Z(x)), Z(y), True))
+        self.val = z3.Store(self.val, Z(x), z3.Store(z3.Select(self.val, Z(x)), Z(y), v))
+
+
+def fresh_map(cx, name):
+    return SymMap(cx.Array(f"{name}_dom", z3.IntSort(), z3.IntSort(), z3.BoolSort()),
+                  cx.Array(f"{name}_val", z3.IntSort(), z3.IntSort(), V))
+
+
+def nxt(x, L):
+    return If(x == L - 1, 0, x + 1)  # (x + 1) mod L for 0 <= x < L
+
+
+@register
+class LocalHam1DInit(Contract):
+    """the default two-site term is placed exactly on the bonds (i, (i+1) mod L), 0 <= i < L-1+cyclic, that are not
+    already present in either orientation; supplied terms are kept; the result and H1 go to LocalHamGen.__init__"""
+
+    target = f"{F1}::LocalHam1D.__init__"
+    property_ids = ("C11",)
+    floor = 12
+
+    def cases(self):
+        return [NS(name=f"H2={k},cyclic={c}", k=k, cyclic=c) for k in ("array", "dict+default", "dict-no-default")
+                for c in (False, True)]
+
+    def inputs(self, cx, case):
+        L = cx.Int("L")
+        cx.assume(L >= (3 if case.cyclic else 1))
+        m0 = fresh_map(cx, "H2")
+        if case.k == "array":
+            m0 = SymMap(z3.K(z3.IntSort(), z3.K(z3.IntSort(), z3.BoolVal(False))), m0.val)  # no explicit terms
+        cx.ghost.update(L=L, m0=SymMap(m0.dom, m0.val), default=Op(cx.Val("H2default")) if case.k != "dict-no-default" else None,
+                        H1=cx.Opaque("H1"))
+        H2 = cx.ghost["default"] if case.k == "array" else ("user-dict", m0)
+        return dict(self=cx.new_obj("LocalHam1D"), L=L, H2=H2, H1=cx.ghost["H1"], cyclic=case.cyclic)
+
+    def call(self, cx, name, args, kwargs, node):
+        g = cx.ghost
+        if name == "hasattr" and args[1] == "shape":
+            return isinstance(args[0], Op)
+        if name == "dict" and isinstance(args[0], tuple) and args[0][0] == "user-dict":
+            m = args[0][1]
+            return ("dict-copy", SymMap(m.dom, m.val))
+        if name == ".pop" and len(args) == 3 and args[1] is None and args[2] is None:
+            recv = args[0]
+            if isinstance(recv, dict):  # {None: H2}: the literal built from an array-like H2
+                dflt = recv.pop(None, None)
+                m = SymMap(z3.K(z3.IntSort(), z3.K(z3.IntSort(), z3.BoolVal(False))), g["m0"].val)
+            elif isinstance(recv, tuple) and recv[0] == "dict-copy":
+                dflt, m = g["default"], recv[1]
+            else:
+                return NotImplemented
+            for k, v in list(cx.env.items()):
+                if v is recv:
+                    cx.env[k] = m  # from here on the variable holds the map without the None key
+            return dflt
+        if name == "__contains__" and isinstance(args[0], SymMap):
+            k = args[1]
+            if not (isinstance(k, tuple) and len(k) == 2):
+                raise Unsupported("key shape")
+            return args[0].has(k[0], k[1])
+        if name == "__setitem__" and isinstance(args[0], SymMap):
+            k, v = args[1], args[2]
+            if not isinstance(v, Op):
+                raise Unsupported("stored value")
+            args[0].put(k[0], k[1], v.z)
+            return None
+        if name == "super().__init__":
+            cx.events.append(("super_init", kwargs.get("H2"), kwargs.get("H1"), args))
+            return None
+        return NotImplemented
+
+    def placed(self, cx, x, y, upto, cyclic):
+        """the default term is placed on (x, y): a bond with index below `upto`, absent in both orientations"""
+        g = cx.ghost
+        m0 = g["m0"]
+        return And(0 <= x, x < upto, y == nxt(x, g["L"]), Not(m0.has(x, y)), Not(m0.has(y, x)))
+
+    def inv(self, v):
+        cx = v.cx
+        g = cx.ghost
+        m, m0, L = v.H2, g["m0"], g["L"]
+        if not isinstance(m, SymMap):
+            return {"map": False}
+        nb = L - 1 + (1 if v.old.cyclic else 0)
+        return {"i<=nbonds": And(0 <= v.i, v.i <= nb),
+                "keys": z3.ForAll([X_, Y_], m.has(X_, Y_) == Or(m0.has(X_, Y_), self.placed(cx, X_, Y_, v.i, v.old.cyclic))),
+                "values": z3.ForAll([X_, Y_], Implies(m.has(X_, Y_),
+                                                      m.get(X_, Y_) == If(m0.has(X_, Y_), m0.get(X_, Y_), g["default"].z)))}
+
+    @property
+    def loops(self):
+        return {0: Loop("for i in range(self.L + int(self.cyclic) - 1)", self.inv,
+                        retype={"H2": lambda cx: fresh_map(cx, "H2cur")})}
+
+    def ensures(self, a, r, cx, case):
+        g = cx.ghost
+        f = cx.fields(a.self)
+        L, m0 = g["L"], g["m0"]
+        ev = [e for e in cx.events if e[0] == "super_init"]
+        ok = len(ev) == 1 and isinstance(ev[0][1], SymMap) and not ev[0][3]
+        d = {"LocalHamGen.__init__-called-once-with-the-completed-map": ok,
+             "L-and-cyclic-stored": is_z3(f.get("L")) and f["L"].eq(L) and f.get("cyclic") is a.cyclic}
+        if ok:
+            m = ev[0][1]
+            nb = L - 1 + (1 if a.cyclic else 0)
+            d["H1-passed-through"] = ev[0][2] is g["H1"]
+            if g["default"] is not None:
+                d["default-placed-exactly-on-absent-bonds-(i,(i+1) mod L), i<L-1+cyclic"] = z3.ForAll(
+                    [X_, Y_], m.has(X_, Y_) == Or(m0.has(X_, Y_), self.placed(cx, X_, Y_, nb, a.cyclic)))
+                d["supplied-terms-kept, placed-terms-are-the-default"] = z3.ForAll(
+                    [X_, Y_], Implies(m.has(X_, Y_), m.get(X_, Y_) == If(m0.has(X_, Y_), m0.get(X_, Y_), g["default"].z)))
+            else:
+                d["no-default: supplied-terms-unchanged"] = And(m.dom == m0.dom, m.val == m0.val)
+        return d
+
+
+# ======================================================================================================
+# LocalHamGen.__init__  (concrete graphs enumerated, operators symbolic: free linear algebra over atoms)
+# ======================================================================================================
+
+
+class Lin:
+    """formal linear combination of operator atoms with rational coefficients (the free model of add / div-by-scalar)"""
+
+    def __init__(self, terms):
+        self.terms = {k: fractions.Fraction(v) for k, v in terms.items() if v != 0}
+
+    def __add__(self, o):
+        t = dict(self.terms)
+        for k, v in o.terms.items():
+            t[k] = t.get(k, 0) + v
+        return Lin(t)
+
+    def scale(self, c):
+        return Lin({k: v * c for k, v in self.terms.items()})
+
+    def map_atoms(self, fn):
+        return Lin({fn(k): v for k, v in self.terms.items()})
+
+    def __eq__(self, o):
+        return isinstance(o, Lin) and self.terms == o.terms
+
+    def __repr__(self):
+        return " + ".join(f"{v}*{k}" for k, v in sorted(self.terms.items(), key=repr)) or "0"
+
+
+class DefaultDictList:
+    def __init__(self):
+        self.d = {}
+
+
+def graph_cases():
+    out = []
+
+    def add(name, keys, h1):
+        out.append(NS(name=f"graph={name},H1={h1}", gname=name, keys=keys, h1=h1))
+
+    h1kinds = ("none", "array", "dict-all", "dict-some", "dict+default")
+    for L in range(2, 9):
+        chain = [(i, i + 1) for i in range(L - 1)]
+        for h1 in h1kinds:
+            add(f"chain{L}", chain, h1)
+        if L >= 3:
+            ring = chain + [(L - 1, 0)]  # the cyclic bond arrives as (L-1, 0): must be flipped to (0, L-1)
+            for h1 in ("none", "array", "dict+default"):
+                add(f"ring{L}", ring, h1)
+    flipped = [(1, 0), (1, 2), (3, 2)]
+    both = [(0, 1), (1, 0), (1, 2)]            # both orientations of one pair: merged
+    star = [(0, 1), (0, 2), (3, 0)]
+    tri = [(0, 1), (1, 2), (2, 0)]
+    grid = [((0, 0), (0, 1)), ((1, 0), (0, 0)), ((0, 1), (1, 1)), ((1, 1), (1, 0))]
+    for nm, keys in (("flipped", flipped), ("both-orientations", both), ("star", star), ("triangle", tri), ("grid2x2", grid)):
+        for h1 in h1kinds:
+            add(nm, keys, h1)
+    add("chain3+isolated-site", [(0, 1), (1, 2)], "dict-isolated")
+    add("chain3-qarray", [(0, 1), (1, 2)], "array-qarray")
+    return out
+
+
+@register
+class LocalHamGenInit(Contract):
+    """(b,a) keys are flipped and merged into (a,b), a < b; each site's single-site term is added with weight
+    1/num_pairs to every covering pair, on the factor pair.index(site) (kron(h, I) if the site comes first, kron(I, h)
+    if second): per site the weights sum to 1, so the sum of all terms is unchanged.  Proved for the enumerated graphs
+    (chains and rings up to 8 sites, flipped / doubled keys, star, triangle, 2x2 grid) with symbolic operators."""
+
+    target = f"{FG}::LocalHamGen.__init__"
+    property_ids = ("C11",)
+    floor = 100
+
+    def cases(self):
+        return graph_cases()
+
+    def inputs(self, cx, case):
+        qa = case.h1 == "array-qarray"
+        H2 = {k: Lin({("h2", k): 1}) for k in case.keys}
+        sites = sorted({s for k in case.keys for s in k})
+        h1 = case.h1
+        if h1 == "none":
+            H1 = None
+        elif h1 in ("array", "array-qarray"):
+            H1 = Lin({("h1", "default"): 1})
+        elif h1 == "dict-all":
+            H1 = {s: Lin({("h1", s): 1}) for s in sites}
+        elif h1 == "dict-some":
+            H1 = {s: Lin({("h1", s): 1}) for s in sites[::2]}
+        elif h1 == "dict+default":
+            H1 = {None: Lin({("h1", "default"): 1}), sites[-1]: Lin({("h1", sites[-1]): 1})}
+        elif h1 == "dict-isolated":
+            H1 = {99: Lin({("h1", 99): 1})}
+        cx.ghost.update(H2=dict(H2), H1=(dict(H1) if isinstance(H1, dict) else H1), sites=sites, qarray=qa)
+        return dict(self=cx.new_obj("LocalHamGen"), H2=H2, H1=H1)
+
+    def attr(self, cx, base, attr, node):
+        if base is None and attr in ("bool", "dict", "list"):
+            return ("builtin", attr)
+        return NotImplemented
+
+    def call(self, cx, name, args, kwargs, node):
+        if name == "collections.defaultdict":
+            return DefaultDictList() if args[0] == ("builtin", "list") else ("op-cache",)
+        if name == "__isinstance__" and args[1] == "qarray":
+            return bool(cx.ghost["qarray"]) and isinstance(args[0], Lin)
+        if name == "hasattr" and args[1] == "shape":
+            return isinstance(args[0], Lin)
+        if name == "filter" and args[0] == ("builtin", "bool") and isinstance(args[1], dict):
+            return tuple(k for k in args[1] if k)
+        if name == "__getitem__" and isinstance(args[0], DefaultDictList):
+            return args[0].d.setdefault(args[1], [])
+        if name == "__setitem__" and isinstance(args[0], dict) and args[1] is None:
+            args[0][None] = args[2]  # store under the key None (the default entry)
+            return None
+        if name.startswith(".") and isinstance(args[0], Ref) and args[0].kind == "LocalHamGen":
+            m, rest = name[1:], args[1:]
+            # [leaves] the cached helpers: conversion keeps the operator, flip exchanges the two sites (linear),
+            # add / div are the vector-space operations, op_id / id_op are kron(x, I) / kron(I, x) (linear)
+            if m == "_convert_from_qarray_cached":
+                cx.events.append(("convert", rest[0]))
+                return rest[0]
+            if m == "_flip_cached":
+                return rest[0].map_atoms(lambda k: ("flip", k))
+            if m == "_add_cached":
+                return rest[0] + rest[1]
+            if m == "_div_cached":
+                if not isinstance(rest[1], int) or rest[1] == 0:
+                    raise Unsupported("division by a non-constant")
+                return rest[0].scale(fractions.Fraction(1, rest[1]))
+            if m == "_op_id_cached":
+                return rest[0].map_atoms(lambda k: ("kron(h,I)", k))
+            if m == "_id_op_cached":
+                return rest[0].map_atoms(lambda k: ("kron(I,h)", k))
+        return NotImplemented
+
+    # ---- independent specification
+    @staticmethod
+    def spec(H2, H1, sites):
+        canon = {}
+        for (a, b), x in H2.items():
+            key, val = ((a, b), x) if a < b else ((b, a), x.map_atoms(lambda k: ("flip", k)))
+            canon[key] = canon[key] + val if key in canon else val
+        deg = {s: sum(1 for k in canon if s in k) for s in sites}
+        if H1 is None:
+            h1 = {}
+        elif isinstance(H1, Lin):
+            h1 = {s: H1 for s in sites}
+        else:
+            h1 = {s: x for s, x in H1.items() if s is not None}
+            if H1.get(None) is not None:
+                for s in sites:
+                    h1.setdefault(s, H1[None])
+        isolated = [s for s in h1 if deg.get(s, 0) == 0]
+        out = dict(canon)
+        for s, x in h1.items():
+            if deg.get(s, 0) == 0:
+                continue
+            for k in canon:
+                if s in k:
+                    part = x.map_atoms(lambda a: ("kron(h,I)" if k[0] == s else "kron(I,h)", a)).scale(fractions.Fraction(1, deg[s]))
+                    out[k] = out[k] + part
+        return out, h1, deg, isolated
+
+    def ensures_raise(self, a, exc, cx, case):
+        g = cx.ghost
+        _, _, _, isolated = self.spec(g["H2"], g["H1"], g["sites"])
+        return {"raises-ValueError-only-for-a-single-site-term-on-an-uncoupled-site": exc == "ValueError" and bool(isolated)}
+
+    def ensures(self, a, r, cx, case):
+        g = cx.ghost
+        f = cx.fields(a.self)
+        want, h1, deg, isolated = self.spec(g["H2"], g["H1"], g["sites"])
+        terms = f.get("terms")
+        d = {"no-uncoupled-single-site-term": not isolated,
+             "terms-is-a-dict": isinstance(terms, dict),
+             "sites==sorted-coordinates": f.get("sites") == tuple(g["sites"])}
+        if not isinstance(terms, dict):
+            return d
+        d["keys==canonical-pairs-(a<b)"] = set(terms) == set(want) and all(k[0] < k[1] for k in terms)
+        d["caller's-H2-not-modified"] = a.H2 == g["H2"]
+        if set(terms) == set(want):
+            d["every-term==two-site-part(+flipped-merge)+sum_s(1/num_pairs(s))*h_s-on-factor-pair.index(s)"] = all(
+                terms[k] == want[k] for k in want)
+            # consequence, checked directly on the result: per site the single-site weights sum to 1, each on the right factor
+            oks = []
+            for s, x in h1.items():
+                for atom in x.terms:
+                    tot, factor_ok = fractions.Fraction(0), True
+                    for k, t in terms.items():
+                        if not isinstance(t, Lin):
+                            factor_ok = False
+                            continue
+                        c1, c2 = t.terms.get(("kron(h,I)", atom), 0), t.terms.get(("kron(I,h)", atom), 0)
+                        if atom == ("h1", "default"):
+                            continue  # the shared default term is accounted for in the whole-term comparison above
+                        tot += c1 + c2
+                        if (c1 and k[0] != s) or (c2 and k[1] != s):
+                            factor_ok = False
+                    if atom != ("h1", "default"):
+                        oks.append(tot == 1 and factor_ok)
+            d["per-site-weights-sum-to-1-on-the-correct-factor"] = all(oks)
+        if g["qarray"]:
+            d["qarray-terms-converted"] = len([e for e in cx.events if e[0] == "convert"]) == len(g["H2"]) + 1
+        return d
